@@ -21,7 +21,7 @@ ASSUMPTIONS = [
     "single-threaded: the bytes read right after an answer are the bytes the answer was about",
 ]
 MONITORS = "every (meta, hash) obtained through the state cache or carried over by update() compared with hashlib at the same instant"
-REQUIRED_COUNTERS = ["racing_writer_queries", "symlinked_files", "answers_checked", "state_hits_checked", "mutations", "get_vs_get_many_compared", "staging_listings_checked", "index_md5_checked",
+REQUIRED_COUNTERS = ["large_file_cases", "index_update_with_reloaded_old_index", "racing_writer_queries", "symlinked_files", "answers_checked", "state_hits_checked", "mutations", "get_vs_get_many_compared", "staging_listings_checked", "index_md5_checked",
                      "index_update_carried_checked", "injected_rows", "memfs_queries", "batch_boundary_cases", "mutations_between_queries", "ext4_cases"]
 
 ALGOS = ["md5", "sha256", "md5-dos2unix", "blake3"]
@@ -192,6 +192,14 @@ def run_shard(ctx):
                     with open(p, "wb") as f:
                         f.write(data)
                 cur[p] = data
+            if not batch and rng.random() < 0.06:
+                # several files above the large-file thresholds in the one directory (unordered parallel hashing)
+                for j, c in enumerate(gen.big_files(rng)):
+                    bp = os.path.join(wdir, f"big{j}.bin")
+                    with open(bp, "wb") as f:
+                        f.write(c)
+                    cur[bp] = c
+                res.count("large_file_cases")
             hist = []
             seen_tokens.clear()
             last_q = {}  # path -> mutation count at last query
@@ -332,6 +340,18 @@ def run_shard(ctx):
                         res.count("mutations")
                         changed.append(p)
                         hist.append(["mutate", k, os.path.basename(p)])
+                    if rng.random() < 0.5:
+                        # the old index comes back from disk (its metadata then lacks inode and mtime)
+                        from dvc_data.index import DataIndex
+
+                        dbp = os.path.join(d, f"old-{len(hist)}.db")
+                        disk = DataIndex.open(dbp)
+                        for k_, e_ in old.iteritems():
+                            disk[k_] = e_
+                        disk.commit()
+                        disk.close()
+                        old = DataIndex.open(dbp)
+                        res.count("index_update_with_reloaded_old_index")
                     new = ibuild(wdir, fs)
                     iupdate(new, old)
                     note_query(paths)
